@@ -499,6 +499,15 @@ func recvAdversary(e *Env) {
 	for i := 0; i < n; i++ {
 		probes = append(probes, genProbe(g, "me"))
 	}
+	if e.Tier == "thorough" {
+		// the bounded-exhaustive family is swept by run index: 40 consecutive
+		// members per run, so 278 runs cover all 11 111 strings
+		for k := 0; k < 40; k++ {
+			probes = append(probes, shortString((e.Idx*40+k)%shortCount))
+		}
+		n = len(probes)
+		e.S.CountN("probe.short-family-members-swept", 40)
+	}
 	e.Notef("track=%v %d probes, e.g. %q %q", track, n, clip(probes[0]), clip(probes[len(probes)-1]))
 	// accessors on whatever the parser returns, directly
 	cmds := map[string]bool{}
